@@ -38,7 +38,7 @@ type c19Group struct {
 
 func c19(r *hx.Run) {
 	r.Level = "fault_enumeration"
-	r.Rule = "G upstream groups in one in-process pike (whose unchanged configuration is re-applied before odd phases) plus two groups behind the real binary (eight round-robin primaries; primary+backup with policy first; all down / all up alternately, so that more than eight transitions to sick happen), each with 1-4 servers (every primary/backup mix incl. backups only), policy from {roundRobin, first, random, leastconn, default}, health check by ping path or by port. Phases: initial (all up), then random up/down vectors (all down, primaries down, one down, ...), finally all up again; servers are really stopped and restarted on the same port. After each change the driver waits until a live server of the group has seen two complete health-check rounds that began after the change (pings/connections are visible at the origins; 11.5 s when nothing is alive), then sends 12 sequential requests per group: each must be served by a healthy primary, or by a healthy backup only if no primary is healthy; roundRobin counts over healthy primaries differ by <= 1; with nothing healthy every request gets a 5xx within 2 s; after recovery traffic resumes. Finally, with everything healthy, single requests fail for reasons that are not the server's (the client gives up on a slow request after 150 ms; a request exceeds the location's 400 ms proxy timeout) and, for groups with backups, one slow request is held in flight on every primary: the 12 requests that follow are judged by the same rule (the servers never failed a health check). Non-trivial = settled phase with at least one server down; distinct = (policy, ping kind, backup mix, up vector)."
+	r.Rule = "G upstream groups in one in-process pike (whose unchanged configuration is re-applied before odd phases) plus two groups behind the real binary (eight round-robin primaries; primary+backup with policy first; all down / all up alternately, so that more than eight transitions to sick happen), each with 1-4 servers (every primary/backup mix incl. backups only), policy from {roundRobin, first, random, leastconn, default}, health check by ping path or by port. Phases: initial (all up), then random up/down vectors (all down, primaries down, one down, ...), finally all up again; servers are really stopped and restarted on the same port. After each change the driver waits until a live server of the group has seen two complete health-check rounds that began after the change (pings/connections are visible at the origins; 11.5 s when nothing is alive), then sends 12 sequential requests per group: each must be served by a healthy primary, or by a healthy backup only if no primary is healthy; roundRobin counts over healthy primaries differ by <= 1; with nothing healthy every request gets a 5xx within 2 s; after recovery traffic resumes. Finally, with everything healthy, single requests fail for reasons that are not the server's (the client gives up on a slow request after 150 ms; a request exceeds the location's 1.5 s proxy timeout) and, for groups with backups, one slow request is held in flight on every primary: the 12 requests that follow are judged by the same rule (the servers never failed a health check). Non-trivial = settled phase with at least one server down; distinct = (policy, ping kind, backup mix, up vector)."
 	r.Assume = []string{"the health checker's 5 s ticker has no clock seam: settling is observed, the run is wall-clock bound", "behaviour inside the unsettled window is not judged"}
 	rnd := rand.New(rand.NewSource(r.Seed))
 	nGroups := r.Pick(14, 100)
@@ -74,9 +74,9 @@ func c19(r *hx.Run) {
 			}
 			cfg.Upstreams = append(cfg.Upstreams, u)
 			lc := config.LocationConfig{Name: fmt.Sprintf("l%d", g.ID), Upstream: u.Name, Prefixes: []string{fmt.Sprintf("/g%d/", g.ID)}}
-			if g.ID%2 == 0 {
-				lc.ProxyTimeout = "400ms"
-				g.ProxyTimeout = 400 * time.Millisecond
+			if g.ID%3 == 0 {
+				lc.ProxyTimeout = "1500ms"
+				g.ProxyTimeout = 1500 * time.Millisecond
 			}
 			cfg.Locations = append(cfg.Locations, lc)
 			names = append(names, fmt.Sprintf("l%d", g.ID))
@@ -138,7 +138,13 @@ func c19(r *hx.Run) {
 		}
 		return o.Conns.Load()
 	}
+	// groups whose health checker was not seen settling after the last change: not judged in that phase
+	unsettled := map[int]bool{}
+	var unsettledMu sync.Mutex
 	settle := func(changedAt time.Time) {
+		unsettledMu.Lock()
+		unsettled = map[int]bool{}
+		unsettledMu.Unlock()
 		var wg sync.WaitGroup
 		for _, g := range groups {
 			wg.Add(1)
@@ -173,7 +179,10 @@ func c19(r *hx.Run) {
 						return
 					}
 				}
-				r.Inconclusive(fmt.Sprintf("group %d did not show two health-check rounds within 16 s", g.ID))
+				r.InconclusiveCase(fmt.Sprintf("group %d did not show two health-check rounds within 16 s", g.ID))
+				unsettledMu.Lock()
+				unsettled[g.ID] = true
+				unsettledMu.Unlock()
 			}(g)
 		}
 		wg.Wait()
@@ -185,6 +194,12 @@ func c19(r *hx.Run) {
 		}
 	}
 	judgeGroup = func(g *c19Group, phase string) {
+		unsettledMu.Lock()
+		skip := unsettled[g.ID]
+		unsettledMu.Unlock()
+		if skip {
+			return
+		}
 		{
 			var healthyPrim, healthyBack []int
 			for i, up := range g.Up {
@@ -221,10 +236,22 @@ func c19(r *hx.Run) {
 				r.Add("requests_in_settled_phases", 1)
 				if len(allowed) == 0 {
 					r.Add("requests_with_nothing_healthy", 1)
+					for retry := 0; retry < 2 && res.Err == nil && res.Status >= 500 && dt > 2*time.Second; retry++ {
+						// slow once may be the machine; slow every time is pike waiting for something
+						r.Add("slow_5xx_retried", 1)
+						t0 = time.Now()
+						res = g.w.cl.Do(hx.Req{Method: "POST", Addr: g.w.addr, Host: "c19.example", URI: fmt.Sprintf("/g%d/r?n=%d&retry=%d", g.ID, reqN, retry), Body: []byte("x"), Timeout: 8 * time.Second})
+						dt = time.Since(t0)
+					}
 					if res.Err != nil || res.Status < 500 || dt > 2*time.Second || len(fs) != 0 {
 						r.Violate("no_prompt_5xx_when_nothing_healthy", map[string]string{"policy": g.Policy}, fmt.Sprintf("status %d err %v after %v, upstream contacts %d", res.Status, res.Err, dt.Round(time.Millisecond), len(fs)), res.Brief(), cs)
 						bad = true
 					}
+					continue
+				}
+				if g.ProxyTimeout > 0 && res.Err == nil && res.Status == 504 && dt >= g.ProxyTimeout {
+					// the location's proxy timeout fired on a plain request: the machine stalled for that long
+					r.InconclusiveCase(fmt.Sprintf("group %d: a plain request took %v and hit the location's proxy timeout", g.ID, dt.Round(time.Millisecond)))
 					continue
 				}
 				if res.Err != nil || res.Status != 200 || len(fs) != 1 {
@@ -316,7 +343,7 @@ func c19(r *hx.Run) {
 				o := g.w.farm.Origins[g.Servers[i]]
 				if want && !g.Up[i] {
 					if err := o.Up(); err != nil {
-						r.Inconclusive("cannot restart origin: " + err.Error())
+						r.InconclusiveCase("cannot restart origin: " + err.Error())
 					}
 					r.Add("servers_brought_up", 1)
 				} else if !want && g.Up[i] {
